@@ -233,4 +233,11 @@ def dump (data : Bytes) : Option Info :=
   | some items => some (.mk (strBytes "ASN.1 data") [] (rawInfos items))
   | none => none
 
+/-- `IsASN1` as the file-type table uses it: one complete element with nothing after it (`isBinaryASN1` above, the outer
+    check) and — with `Gen.asn1IdentifierWalksTree` — a nested structure that is DER all the way down, i.e. the generic
+    dump exists.  Without the walk, data such as SEQUENCE { indefinite-length element } or 103 bytes of text starting
+    "he…" passes and is then described as "unknown ASN.1 data". -/
+def isASN1 (data : Bytes) : Bool :=
+  isBinaryASN1 data && (if Gen.asn1IdentifierWalksTree then (parseRaw (data.length + 1) data).isSome else true)
+
 end WhatIs.Asn1
